@@ -67,8 +67,9 @@ class RawState:
         self.prefix_len = self.config['loose_prefix_len']
         self.loose: dict[str, bytes] = {}
         self.loose_extraneous: list[str] = []
+        self.missing_folders: list[str] = [d for d in ('loose', 'packs', 'duplicates', 'sandbox') if not os.path.isdir(os.path.join(root, d))]
         loose_dir = os.path.join(root, 'loose')
-        for first in sorted(REAL['os.listdir'](loose_dir)):
+        for first in (sorted(REAL['os.listdir'](loose_dir)) if 'loose' not in self.missing_folders else []):
             p1 = os.path.join(loose_dir, first)
             if self.prefix_len:
                 if os.path.isdir(p1):
@@ -84,13 +85,13 @@ class RawState:
         self.packs: dict[str, bytes] = {}
         self.pack_other: list[str] = []
         pdir = os.path.join(root, 'packs')
-        for name in sorted(REAL['os.listdir'](pdir)):
+        for name in (sorted(REAL['os.listdir'](pdir)) if 'packs' not in self.missing_folders else []):
             if name.lstrip('-').isdigit():
                 self.packs[name] = _read(os.path.join(pdir, name))
             else:
                 self.pack_other.append(name)
-        self.duplicates = sorted(REAL['os.listdir'](os.path.join(root, 'duplicates')))
-        self.sandbox = sorted(REAL['os.listdir'](os.path.join(root, 'sandbox')))
+        self.duplicates = sorted(REAL['os.listdir'](os.path.join(root, 'duplicates'))) if 'duplicates' not in self.missing_folders else []
+        self.sandbox = sorted(REAL['os.listdir'](os.path.join(root, 'sandbox'))) if 'sandbox' not in self.missing_folders else []
         self.rows = read_index(root)
 
     # --- derived views -------------------------------------------------------------------------------------
@@ -151,6 +152,8 @@ class RawState:
 def invariants(raw: RawState) -> list[tuple[str, str]]:
     """Raw invariants of C03. Returns a list of (clause, detail); empty when the state is self-consistent."""
     probs: list[tuple[str, str]] = []
+    for d in raw.missing_folders:
+        probs.append(('container-folder-missing', f'the {d}/ folder of the container no longer exists'))
     byk = raw.rows_by_key()
     for k, rs in byk.items():
         if len(rs) > 1:
